@@ -201,7 +201,32 @@ def h_sky(cx, cfg):
         else:
             cx.assume(sym_not(polar))       # the direct branch is taken
         S.log[:] = []
-        res = co.randcap(1, ra, dec, rad, get_radius=get_radius, dorot=dorot, rng=rng)
+        inner = {}
+        if dorot:
+            # the rotated branch draws in a cap about (90, 0) and rotates it to the centre.  The
+            # inner draw is replaced by its contract (decided in the direct configurations): a
+            # point whose separation from (90, 0) is r, i.e. cos(dec_p) sin(ra_p) = cos r
+            real_randcap = co.randcap
+
+            def randcap_contract(nrand, ra_c, dec_c, rad_c, get_radius=False, dorot=False, rng=None):
+                if inner or dorot or not (ra_c == 90.0 and dec_c == 0.0):
+                    return real_randcap(nrand, ra_c, dec_c, rad_c, get_radius=get_radius, dorot=dorot, rng=rng)
+                u = rng.random(int(nrand)).tolist()[0]
+                rng.uniform(low=0, high=1, size=int(nrand))
+                rr = symx.sym_sqrt(u) * rad_c
+                rap = trig.angle("ra_p", 0, 360)
+                decp = trig.angle("dec_p", -90, 90)
+                (srp, crp), (sdp, cdp) = trig.pair("ra_p"), trig.pair("dec_p")
+                cx.assume(cdp >= 0)
+                rs, rc = trig.sincos(SReal(symx.real_term(rr) * trig.PI / 180))
+                cx._assume_t(symx.real_term(cdp * srp) == symx.real_term(rc))
+                cx.rules.append(((cdp.t, srp.t), 1, symx.real_term(rc)))
+                inner.update(ra=rap, dec=decp, r=rr, rcos=rc)
+                return symnp.array([rap]), symnp.array([decp]), symnp.array([rr])
+            co.randcap = randcap_contract
+            res = co.randcap(1, ra, dec, rad, get_radius=get_radius, dorot=True, rng=rng)
+        else:
+            res = co.randcap(1, ra, dec, rad, get_radius=get_radius, dorot=dorot, rng=rng)
         cx.check("randcap returns (ra, dec[, radius])", len(res) == (3 if get_radius else 2))
         r0, d0 = res[0].tolist()[0] if hasattr(res[0], "tolist") else res[0], res[1].tolist()[0] if hasattr(res[1], "tolist") else res[1]
         cx.check("randcap returns the requested number of points", (not hasattr(res[0], "tolist")) or len(res[0].tolist()) == 1)
@@ -236,6 +261,16 @@ def h_sky(cx, cfg):
                             cth * C2 + sth * S2 * cD, rcos)
                 spsi, cpsi = trig.sincos(trig.SAng({"u2": fractions.Fraction(1)}, 0, 0))
                 cx.check_eq("randcap: polar distance from radius and position angle", C2, cth * rcos + sth * rsin * cpsi)
+        if dorot and inner:
+            # the direction finally returned is what the last rotate handed to arcsin/arctan2
+            asn = [p for p in S.log if p[0] == "arcsin"]
+            at2 = [p for p in S.log if p[0] == "arctan2"]
+            cx.check("randcap (rotated): the cap is rotated by calls of rotate", len(asn) >= 1 and len(at2) >= 1)
+            if asn and at2:
+                vx, vy, vz = at2[-1][2], at2[-1][1], _leaf(asn[-1][1])
+                (sr, cr), (sd, cd) = trig.pair("ra"), trig.pair("dec")
+                cx.check_eq("randcap (rotated): cos(separation of the returned point from the requested centre) = cos(radius)",
+                            cr * cd * vx + sr * cd * vy + sd * vz, inner["rcos"])
         cx.drop_obligations("clips/poles: outside the claim (see assumptions)")
         return
     raise AssertionError(cfg)
